@@ -7,13 +7,20 @@ package main
 import (
 	"fmt"
 	"os"
+	"time"
 
 	"verif/internal/evid"
 	"verif/internal/l1"
+	"verif/internal/l2"
 )
 
 func main() {
 	r := evid.New("C01", "exploration")
+	nL2 := r.Pick(10, 300)
+	if l2.IsChild() {
+		l2.RunScenarios(r, nL2, 300*time.Second, l2.RunReported)
+	}
+	r.Rule("L2 part (complete client, what it REPORTS): initial sync behind a first peer that serves, a few headers per message, a valid fork / a chain with one invalid header / the honest chain, leaving the honest chain below one of 1-3 checkpoints, then growth and reorganisations; all the time a monitor calls GetBlockHash(h) -> GetBlockHeader -> GetBlockHeight for seeded heights (anywhere, near the tip, below checkpoints) and judges a sample when the header store held the same header at h and the same tip right before and after the calls: the three lookups must describe that chain; at every quiescent point the whole chain is read back through these lookups only and validated by the reference validator incl. checkpoints, and BestBlock must lie on it")
 	r.Rule("seeded L1 sessions (20-120 messages: valid/invalid-in-one-rule/partially-valid/duplicate/shuffled/fork/orphan batches, inv, peer join/leave, clock jump) over generated block trees under 3 parameter presets with 0-3 checkpoints; after EVERY handled message the whole stored chain is re-read via the public store API and validated by an independent reference validator, and by-hash/by-height/tip/locator answers are cross-checked. distinct = (message kind class, sender role, checkpoint relation, changed/unchanged/disconnected, reorg depth bucket); non-trivial = the message changed the store or got the sender disconnected")
 	r.Assume("btcd CompactToBig/BigToCompact/CalcWork/HashToBig are correct (pure arithmetic); reference validator cross-checked against btcd CheckBlockHeaderContext/Sanity in harness self-test")
 	r.Assume("L1 drives the real handlers synchronously through the verif-tag export; network timing is out of scope here (see C04)")
@@ -57,6 +64,7 @@ func main() {
 	// Wrap sessions: 12 000+ headers (the in-memory window is 10 000), forks
 	// from below the window, heavier-but-shorter branches in the thorough tier.
 	l1.RunWraps(r.Seed, r.Pick(2, 8), !r.Quick(), cbs)
+	l2.RunScenarios(r, nL2, 300*time.Second, l2.RunReported)
 	r.Finish(25)
 }
 
